@@ -520,15 +520,18 @@ def clause_f_axes(ctx: Context) -> None:
                     and x.comparators[0].id in sizes and isinstance(x.ops[0], (ast.GtE, ast.Lt, ast.Gt, ast.LtE)):
                 pm, k = sizes[x.comparators[0].id]
                 var = x.left.id
-                for f2 in m.functions.values():
-                    if f2 is not fn:
-                        continue
-                    for sub in ast.walk(f2.node):
-                        if isinstance(sub, ast.Subscript) and isinstance(sub.value, ast.Name) and sub.value.id == pm:
-                            sl = sub.slice
-                            elts = sl.elts if isinstance(sl, ast.Tuple) else [sl]
-                            for ax, el in enumerate(elts):
-                                if isinstance(el, ast.Name) and el.id == var:
-                                    report(x, x.comparators[0].id, (pm, ax), "is the bound tested for an index that is used")
+                # the tested value and the index are the same quantity when they are the same variable, or loop / comprehension variables
+                # over the same iterable (`for c in outcome: if c >= S: raise` ... `[M[:, c] for c in outcome]`)
+                var_iters = {norm(lp.iter) for lp in ast.walk(fn.node) if isinstance(lp, (ast.For, ast.comprehension)) and isinstance(lp.target, ast.Name)
+                             and lp.target.id == var}
+                same = {var} | {lp.target.id for lp in ast.walk(fn.node) if isinstance(lp, (ast.For, ast.comprehension)) and isinstance(lp.target, ast.Name)
+                                and norm(lp.iter) in var_iters}
+                for sub in ast.walk(fn.node):
+                    if isinstance(sub, ast.Subscript) and isinstance(sub.value, ast.Name) and sub.value.id == pm:
+                        sl = sub.slice
+                        elts = sl.elts if isinstance(sl, ast.Tuple) else [sl]
+                        for ax, el in enumerate(elts):
+                            if isinstance(el, ast.Name) and el.id in same:
+                                report(x, x.comparators[0].id, (pm, ax), "is the bound tested for an index that is used")
     ctx.require_floor("C02f sizes read from an axis of a matrix parameter", n_sizes, 3)
     ctx.require_floor("C02f uses of such sizes along an axis of the same matrix", n_uses, 3)
